@@ -13,20 +13,22 @@ import (
 
 // catalog holds named values for the any-typed parameters (readable witnesses).
 var catalog = map[string]func() any{
-	"nil":                 func() any { return nil },
-	"int":                 func() any { return 5 },
-	"string":              func() any { return "abc" },
-	"array":               func() any { return [3]int{3, 1, 2} },
-	"ptr-to-slice":        func() any { return &[]int{3, 1, 2} },
-	"map":                 func() any { return map[string]int{"a": 1} },
-	"struct":              func() any { return recA{A: 1} },
-	"func":                func() any { return func() {} },
-	"chan":                func() any { return make(chan int) },
-	"nil-slice":           func() any { return []int(nil) },
-	"empty-slice":         func() any { return []string{} },
-	"ints":                func() any { return []int{3, -1, 2, math.MinInt, math.MaxInt, 2} },
-	"strings":             func() any { return []string{"b", "", "a", "é", "B", "\xff", "ab"} },
-	"floats":              func() any { return []float64{2, math.NaN(), -1, math.Inf(1), math.Inf(-1), 0, math.Copysign(0, -1), math.NaN()} },
+	"nil":          func() any { return nil },
+	"int":          func() any { return 5 },
+	"string":       func() any { return "abc" },
+	"array":        func() any { return [3]int{3, 1, 2} },
+	"ptr-to-slice": func() any { return &[]int{3, 1, 2} },
+	"map":          func() any { return map[string]int{"a": 1} },
+	"struct":       func() any { return recA{A: 1} },
+	"func":         func() any { return func() {} },
+	"chan":         func() any { return make(chan int) },
+	"nil-slice":    func() any { return []int(nil) },
+	"empty-slice":  func() any { return []string{} },
+	"ints":         func() any { return []int{3, -1, 2, math.MinInt, math.MaxInt, 2} },
+	"strings":      func() any { return []string{"b", "", "a", "é", "B", "\xff", "ab"} },
+	"floats": func() any {
+		return []float64{2, math.NaN(), -1, math.Inf(1), math.Inf(-1), 0, math.Copysign(0, -1), math.NaN()}
+	},
 	"runes":               func() any { return []rune{'b', 'a', 'é', 0, -1} },
 	"bytes":               func() any { return []byte{3, 255, 0, 1} },
 	"htmls":               func() any { return []native.HTML{"<b>", "<a>", ""} },
